@@ -4,7 +4,8 @@
    shown, and how the session ends.  Programs are input-free (the interpreter shares stdin with the program). *)
 From Coq Require Import List NArith Bool.
 Import ListNotations.
-From HV Require Import Model.Parse Model.Exec Model.Opt Model.Repl Proofs.OptSpec Proofs.AppSpec Proofs.AppAll.
+From HV Require Import Model.Parse Model.Exec Model.Opt Model.Repl Proofs.OptSpec Proofs.AppSpec Proofs.AppAll Proofs.CoroSpec.
+From HV Require Proofs.CoroProofs.
 Open Scope N_scope.
 
 (* for every clear-free history — any cutting of the commands into lines, with blank and help lines in between —
@@ -38,6 +39,13 @@ Theorem C12_clear_resets : forall fx fuel line rest log s, leqb (trim line) KW_C
   (let (ev, e) := repl fx fuel rest [] (state0 SUnopt (inp s)) in (EvFlush [] [] :: ev, e)).
 Proof. exact repl_clear_t. Qed.
 Print Assumptions C12_clear_resets.
+
+(* hence what is shown for the lines after a `clear` is what a fresh session shows for them *)
+Theorem C12_after_clear_is_fresh : forall fuel line rest log s, leqb (trim line) KW_CLEAR = true ->
+  snd (repl true fuel (line :: rest) log s) = snd (repl true fuel rest [] (state0 SUnopt (inp s))) /\
+  fst (repl true fuel (line :: rest) log s) = EvFlush [] [] :: fst (repl true fuel rest [] (state0 SUnopt (inp s))).
+Proof. exact CoroProofs.repl_after_clear. Qed.
+Print Assumptions C12_after_clear_is_fresh.
 
 (* the pinned tree (before fix 254b24c) dropped a line's text when the line ended in an error *)
 Theorem C12_pinned_refuted : exists fuel lines, forallb plain_line lines = true /\
